@@ -1,7 +1,10 @@
 SPECIFICATION FairSpec
 CONSTANTS FallbackMode = "last"
  FailFast = FALSE
+ CancelMode = "coded"
+ WaitMode = "none"
  MaxP = 3
  MaxB = 2
+ MaxDeaf = 1
 PROPERTIES SuccessIfAny CancelPrompt Terminates
 CHECK_DEADLOCK FALSE
